@@ -109,6 +109,116 @@ def mutate(rng, b):
     return bytes(b)
 
 
+# ------------------------------------------------------------------ alternative BER forms of a value
+# (constructed / segmented OCTET STRING, indefinite and long-form lengths): they reach the decoder paths
+# that keep state between calls (the OCTET STRING decode stack in ctx->ptr, left behind by a starved decode)
+
+def parse_val(s, pos=0):
+    ch = s[pos]
+    if ch == "T":
+        return True, pos + 1
+    if ch == "F":
+        return False, pos + 1
+    if ch == "N":
+        return None, pos + 1
+    if ch == "I":
+        j = s.index(";", pos)
+        return int(s[pos + 1:j]), j + 1
+    if ch == "O":
+        j = s.index(";", pos)
+        return bytes.fromhex(s[pos + 1:j]), j + 1
+    if ch in "SL":
+        pos += 2
+        xs = []
+        while s[pos] != "}":
+            v, pos = parse_val(s, pos)
+            xs.append(v)
+        return (ch, xs), pos + 1
+    if ch == "C":
+        j = s.index(":", pos)
+        v, p2 = parse_val(s, j + 1)
+        return ("C", int(s[pos + 1:j]), v), p2
+    if ch == "_":
+        return ("_",), pos + 1
+    if ch == "!":
+        v, p2 = parse_val(s, pos + 1)
+        return ("!", v), p2
+    raise ValueError(s[pos:])
+
+
+def ber_tag(tg, constructed):
+    cls, num = tg % 4, tg // 4
+    b0 = (cls << 6) | (0x20 if constructed else 0)
+    if num <= 30:
+        return bytes([b0 | num])
+    ds = []
+    while True:
+        ds.insert(0, num % 128)
+        num //= 128
+        if num == 0:
+            break
+    return bytes([b0 | 31] + [d | 0x80 for d in ds[:-1]] + [ds[-1]])
+
+
+def ber_len(n, rng, allow_long=True):
+    if n <= 127 and not (allow_long and rng.chance(1, 3)):
+        return bytes([n])
+    b = n.to_bytes(max(1, (n.bit_length() + 7) // 8), "big")
+    if allow_long and rng.chance(1, 3):
+        b = b"\x00" + b                      # non-minimal long form
+    return bytes([0x80 | len(b)]) + b
+
+
+def ber_cons(tg, content, rng):
+    if rng.chance(1, 2):
+        return ber_tag(tg, True) + b"\x80" + content + b"\x00\x00"
+    return ber_tag(tg, True) + ber_len(len(content), rng) + content
+
+
+def ber_alt(tree, v, rng):
+    k = tree[0]
+    if k == "b":
+        return ber_tag(tree[1], False) + b"\x01" + (bytes([rng.range(1, 255)]) if v else b"\x00")
+    if k == "n":
+        return ber_tag(tree[1], False) + b"\x00"
+    if k == "i":
+        n = max(1, (v.bit_length() + 8) // 8)
+        return ber_tag(tree[1], False) + ber_len(n, rng) + v.to_bytes(n, "big", signed=True)
+    if k == "o":
+        if rng.chance(2, 3):
+            # constructed: segments are universal OCTET STRINGs, possibly nested one level
+            segs, i = b"", 0
+            while i < len(v) or (i == 0 and rng.chance(1, 2)):
+                j = min(len(v), i + rng.range(0, 3))
+                piece = b"\x04" + ber_len(j - i, rng) + v[i:j]
+                if rng.chance(1, 4):
+                    piece = b"\x24\x80" + piece + b"\x00\x00"
+                segs += piece
+                if j == i and i >= len(v):
+                    break
+                i = j
+            return ber_cons(tree[1], segs, rng)
+        return ber_tag(tree[1], False) + ber_len(len(v), rng) + v
+    if k == "s":
+        out = b""
+        for m, x in zip(tree[2], v[1]):
+            if m[0] == "?":
+                if x[0] == "!":
+                    out += ber_alt(m[1], x[1], rng)
+            else:
+                out += ber_alt(m, x, rng)
+        return ber_cons(tree[1], out, rng)
+    if k in ("q", "t"):
+        return ber_cons(tree[1], b"".join(ber_alt(tree[3], x, rng) for x in v[1]), rng)
+    if k == "c":
+        return ber_alt(tree[1][v[1]], v[2], rng)
+    if k == "x":
+        return ber_cons(tree[1], ber_alt(tree[2], v, rng), rng)
+    if k == "?":
+        return ber_alt(tree[1], v[1], rng) if v[0] == "!" else b""
+    raise ValueError(k)
+
+
 def hx(b):
     return b.hex() if len(b) else "-"
 
@@ -120,6 +230,15 @@ def histories(rng, case, enc, tier):
     ber = enc["ber"]
     hs.append(("encode-a", "ber", ["dec:ber:" + hx(ber), "enc:der", "enc:uper", "enc:oer", "enc:xer", "free"]))
     hs.append(("encode-b", "ber", ["dec:ber:" + hx(ber), "enc:cper", "enc:coer", "enc:cxer", "chk", "free"]))
+    if enc.get("alt") is not None:
+        A = enc["alt"]
+        cut = rng.range(0, len(A) - 1)
+        hs.append(("alt-ber", "ber", ["dec:ber:" + hx(A), "enc:der", "free"]))
+        hs.append(("alt-ber-starve-rest", "ber", ["dec:ber:%s:%d" % (hx(A), cut), "print", "decr:ber", "enc:der", "free"]))
+        hs.append(("alt-ber-starve-free", "ber", ["dec:ber:%s:%d" % (hx(A), cut), "free"]))
+        hs.append(("alt-ber-starve-reset-redecode", "ber", ["dec:ber:%s:%d" % (hx(A), cut), "reset", "dec:ber:" + hx(ber), "enc:der", "free"]))
+        if tier != "quick":
+            hs.append(("alt-ber-starve-garbage", "ber", ["dec:ber:%s:%d" % (hx(A), cut), "dec:ber:" + hx(mutate(rng, A[cut:])), "free"]))
     for s in syns:
         B = enc[s]
         hs.append(("fresh", s, ["dec:%s:%s" % (s, hx(B)), "enc:der", "print", "free"]))
@@ -284,6 +403,10 @@ def main(tier):
                    "uper": bytes.fromhex(c["uper"]) if c["uper"] not in ("NONE", "-") else (b"" if c["uper"] == "-" else None),
                    "oer": bytes.fromhex(c["oer"]) if c["oer"] not in ("NONE", "-") else (b"" if c["oer"] == "-" else None),
                    "xer": bytes.fromhex(c["xer"]) if c.get("xer") else None}
+            try:
+                enc["alt"] = ber_alt(m["trees"][c["tn"]], parse_val(c["vs"])[0], r)
+            except (ValueError, IndexError, TypeError, OverflowError):
+                enc["alt"] = None
             for kind, s, ops in histories(r, c, enc, tier):
                 hs.append({"case": c, "kind": kind, "syn": s, "ops": ops, "enc": enc})
         base, exits = chunked(m["exe"], ["hist %s %s" % (h["case"]["tn"], ";".join(h["ops"])) for h in hs])
@@ -451,6 +574,10 @@ def check_history(run, rep, h, p, x, fresh):
                         bad.append(("reset-not-fresh", i, "decode after reset makes %s allocations, into a fresh structure %s (top block reused: %s)" % (d.get("a"), f0.get("a"), reused)))
                     if i + 1 < len(p) - 1 and ops[i + 1] == "enc:der" and p[i + 1].get("hex") != fr[1].get("hex"):
                         bad.append(("reset-not-fresh", i, "value decoded after reset differs from the value decoded into a fresh structure"))
+        if h["kind"] == "alt-ber":
+            run.count("alt_ber_dec_%s" % p[0].get("rc"))
+            if p[0].get("rc") == "OK" and p[1].get("hex") != c["der"]:
+                bad.append(("value", 0, "an alternative BER form decodes to a different value"))
         if h["kind"] == "fresh":
             run.count("fresh_dec_%s_%s" % (h["syn"], p[0].get("rc")))
             own = c.get("own_oer") if h["syn"] == "oer" else c.get("own")
